@@ -7,10 +7,11 @@ from pyvc import vals
 from .speclib import REG, Contract
 
 M_LA = "pytestarch.query_language.layered_architecture_rule"
-vals.declare_obj("LayerRule", dict(_rule="Opt[Rule]", _architecture="Opt[Opaque[LayeredArchitecture]]", _rule_matcher_class="Opaque[MatcherClass]"))
+vals.declare_obj("LayeredArchitecture", dict(_modules_by_layer_name="Dict[Str,Bag[Filter]]"))
+vals.declare_obj("LayerRule", dict(_rule="Opt[Rule]", _architecture="Opt[LayeredArchitecture]", _rule_matcher_class="Opaque[MatcherClass]"))
 LR = "LayerRule"
 _UNCH = ["self._architecture == old(self)._architecture", "self._rule_matcher_class == old(self)._rule_matcher_class"]
-REG.add(Contract(f"{LR}.based_on", module=M_LA, kind="method", params=dict(self=LR, architecture="Opaque[LayeredArchitecture]"), returns=LR, modifies=["self"],
+REG.add(Contract(f"{LR}.based_on", module=M_LA, kind="method", params=dict(self=LR, architecture="LayeredArchitecture"), returns=LR, modifies=["self"],
                  # C16: a layer rule is based on exactly one architecture
                  raises=[("ImproperlyConfigured", "not is_none(self._architecture)")],
                  ensures=["self._architecture == architecture", "self._rule == old(self)._rule", "self._rule_matcher_class == old(self)._rule_matcher_class", "result == self"],
@@ -110,7 +111,6 @@ for _name, _K, _rel in (("_should_not_requirement_violations", "Dep", "realised_
                      properties=["C05"]))
 
 # ---------------------------------------------------------------- LayeredArchitecture (C16), string view
-vals.declare_obj("LayeredArchitecture", dict(_modules_by_layer_name="Dict[Str,Bag[Filter]]"))
 LA = "LayeredArchitecture"
 # class invariant: at most one layer is waiting for its modules (an empty list marks the layer currently being defined)
 REG.macro("la_pending", ["a", "l"], "(l in a._modules_by_layer_name) and not nonempty(a._modules_by_layer_name[l])")
@@ -153,3 +153,60 @@ REG.add(Contract(f"{LA}.have_modules_with_names_matching", module=M_LA, kind="me
 REG.add(Contract(f"{LA}.__init__", module=M_LA, kind="method", view="string", params=dict(self=LA), returns="None", modifies=["self"],
                  ensures=["not nonempty(self._modules_by_layer_name)", "la_inv(self)"], properties=["C16"],
                  note="establishes the class invariant la_inv, which every mutating method requires and re-establishes: it holds after every finite call sequence"))
+
+
+# ---------------------------------------------------------------- LayerRule: layers_that / are_named (C13, C16)
+REG.add(Contract(f"{LA}.__getitem__", module=M_LA, kind="method", params=dict(self=LA, layer="Str"), returns="Bag[Filter]",
+                 # C13: a layer that was never defined is a lookup error
+                 raises=[("KeyError", "not (layer in self._modules_by_layer_name)")], defn="self._modules_by_layer_name[layer]", properties=["C13", "C16"]))
+REG.add(Contract(f"{LA}.layer_mapping", module=M_LA, kind="property", status="bounded", params=dict(self=LA), returns="Opaque[LayerMapping]",
+                 note="LayerMapping(self._modules_by_layer_name): construction and lookup are covered by the bounded C05 / C14 stand-ins"))
+REG.add(Contract("partial", status="assumed", params=dict(func="Opaque[MatcherClass]", layer_mapping="Opaque[LayerMapping]"), returns="Opaque[MatcherClass]",
+                 note="functools.partial(matcher class, layer_mapping=...): the matcher class the inner Rule instantiates"))
+REG.add(Contract("Rule._add_modules", module="pytestarch.query_language.rule", kind="method", status="bounded",
+                 params=dict(self="Rule", modules="Bag[Tuple[Node,Bool]]"), returns="Rule", modifies=["self"],
+                 ensures=["result == self", "self._rule_matcher_class == old(self)._rule_matcher_class",
+                          "self._modules_to_check_to_be_specified_next == old(self)._modules_to_check_to_be_specified_next",
+                          # appended to the side that is being specified: one name filter / regex filter per (identifier, is_regex) pair
+                          "implies(unwrap(old(self)._modules_to_check_to_be_specified_next), (not is_none(self._configuration.modules_to_check)) and "
+                          "forall(Filter, lambda f: (f in unwrap(self._configuration.modules_to_check)) == (((not is_none(old(self)._configuration.modules_to_check)) and (f in unwrap(old(self)._configuration.modules_to_check))) or "
+                          "exists(Node, Bool, lambda n, r: ((n, r) in modules) and f == (mk_filter_regex(n) if r else mk_filter_name(n))))) and "
+                          "self._configuration.modules_to_check_against == old(self)._configuration.modules_to_check_against)",
+                          "implies(not unwrap(old(self)._modules_to_check_to_be_specified_next), (not is_none(self._configuration.modules_to_check_against)) and "
+                          "forall(Filter, lambda f: (f in unwrap(self._configuration.modules_to_check_against)) == (((not is_none(old(self)._configuration.modules_to_check_against)) and (f in unwrap(old(self)._configuration.modules_to_check_against))) or "
+                          "exists(Node, Bool, lambda n, r: ((n, r) in modules) and f == (mk_filter_regex(n) if r else mk_filter_name(n))))) and "
+                          "self._configuration.modules_to_check == old(self)._configuration.modules_to_check)"]
+                 + [f"self._configuration.{f} == old(self)._configuration.{f}" for f in _cfg_fields() if f not in ("modules_to_check", "modules_to_check_against")],
+                 requires=["not is_none(self._modules_to_check_to_be_specified_next)"],
+                 note="builds a list of closures (late binding was defect F05b): not under contract; covered by the bounded C05 stand-in (mixed name / regex layers)"))
+REG.add(Contract(f"{LR}._listify", module=M_LA, kind="classmethod", params=dict(layers="Str"), returns="Bag[Str]",
+                 ensures=["forall(Str, lambda l: (l in result) == (l == layers))"], properties=["C16"]))
+REG.contracts[f"{LR}._listify"].alt = REG.add(Contract(f"{LR}._listify@list", module=M_LA, qualname=f"{LR}._listify", kind="classmethod", params=dict(layers="Bag[Str]"), returns="Bag[Str]",
+                                                 ensures=["same_elements(result, layers)"], properties=["C16"]))
+REG.add(Contract(f"{LR}._get_all_modules_in_layers", module=M_LA, kind="method", params=dict(self=LR, layers="Bag[Str]"), returns="Bag[Tuple[Node,Bool]]",
+                 # C13: EVERY requested layer must be defined -- an undefined one among defined ones is a lookup error, never silently dropped
+                 raises=[("ImproperlyConfigured", "is_none(self._architecture)"),
+                         ("KeyError", "(not is_none(self._architecture)) and exists(Str, lambda l: (l in layers) and not (l in unwrap(self._architecture)._modules_by_layer_name))")],
+                 ensures=["forall(Node, Bool, lambda n, r: ((n, r) in result) == exists(Str, Filter, lambda l, f: (l in layers) and (f in unwrap(self._architecture)._modules_by_layer_name[l]) and n == fid(f) and r == is_regex(f)))"],
+                 properties=["C13", "C16", "C05"]))
+REG.add(Contract(f"{LR}.layers_that", module=M_LA, kind="method", params=dict(self=LR), returns=LR, modifies=["self"],
+                 # C16: a layer rule needs an architecture first
+                 raises=[("ImproperlyConfigured", "is_none(self._architecture)")],
+                 ensures=["not is_none(self._rule)", "unwrap(self._rule)._modules_to_check_to_be_specified_next == True", "is_none(unwrap(self._rule)._configuration.modules_to_check)",
+                          "is_none(unwrap(self._rule)._configuration.modules_to_check_against)", "not unwrap(self._rule)._configuration.should", "not unwrap(self._rule)._configuration.should_only",
+                          "not unwrap(self._rule)._configuration.should_not", "is_none(unwrap(self._rule)._configuration.import_)", "not unwrap(self._rule)._configuration.rule_object_anything",
+                          "not unwrap(self._rule)._configuration.except_present", "result == self"] + _UNCH,
+                 properties=["C13", "C16"]))
+for _variant, _ptype, _is_list, _in in (("", "Str", "False", "l == layers"), ("@list", "Bag[Str]", "True", "l in layers")):
+    REG.add(Contract(f"{LR}.are_named{_variant}", module=M_LA, qualname=f"{LR}.are_named", kind="method", params=dict(self=LR, layers=_ptype), returns=LR, modifies=["self"],
+                     requires=["implies(not is_none(self._rule), not is_none(unwrap(self._rule)._modules_to_check_to_be_specified_next))"],
+                     raises=[
+                         # C16: exactly one subject layer: never a batch, never a second one; C13: nothing before layers_that
+                         ("ImproperlyConfigured", f"is_none(self._rule) or ((not nonempty(unwrap(self._rule)._configuration.modules_to_check)) and {_is_list}) or "
+                                                  "(nonempty(unwrap(self._rule)._configuration.modules_to_check) and unwrap(unwrap(self._rule)._modules_to_check_to_be_specified_next)) or is_none(self._architecture)"),
+                         ("KeyError", f"(not is_none(self._rule)) and (not ((not nonempty(unwrap(self._rule)._configuration.modules_to_check)) and {_is_list})) and "
+                                      "(not (nonempty(unwrap(self._rule)._configuration.modules_to_check) and unwrap(unwrap(self._rule)._modules_to_check_to_be_specified_next))) and (not is_none(self._architecture)) and "
+                                      f"exists(Str, lambda l: ({_in}) and not (l in unwrap(self._architecture)._modules_by_layer_name))")],
+                     ensures=["not is_none(self._rule)", "result == self"] + _UNCH,
+                     properties=["C13", "C16"]))
+REG.contracts[f"{LR}.are_named"].alt = REG.contracts[f"{LR}.are_named@list"]
